@@ -51,6 +51,7 @@ RECURSIVE Nullable(_)
 RECURSIVE NullSeq(_, _)
 Nullable(e) == CASE e.op \in {"opt", "star", "void", "cut", "and", "not", "const", "constbad", "emptyclosure", "eof", "fail"} -> TRUE
                  [] e.op = "pat" -> e.min = 0
+                 [] e.op = "opat" -> e.nul
                  [] e.op = "join" -> ~e.plus
                  [] e.op = "seq" -> NullSeq(e.es, 1)
                  [] e.op = "alt" -> \E i \in 1..Len(e.es) : Nullable(e.es[i])
